@@ -294,22 +294,20 @@ func (t *HHWheelTimer) cascade(level, idx int) {
 
 func (t *HHWheelTimer) shiftWheels() {
 	var ct = t.currTick
-	if ct == 0 { // uint32 overflow
-		t.cascade(3, 0)
+	if ct&TVR_MASK != 0 {
 		return
 	}
-	var mask = uint32(TVR_SIZE)
+	// the near wheel wrapped around: cascade the current slot of the next level,
+	// and go on to the level after it each time that level's index is 0 too
+	// (this also covers the uint32 overflow of currTick, where every index is 0)
 	var ticks = ct >> TVR_BITS
-	var i = 0
-	for (ct & (mask - 1)) == 0 {
+	for i := 0; i < WHEEL_LEVEL; i++ {
 		var idx = int(ticks & TVN_MASK)
+		t.cascade(i, idx)
 		if idx != 0 {
-			t.cascade(i, idx)
 			break
 		}
-		mask <<= TVN_BITS
 		ticks >>= TVN_BITS
-		i++
 	}
 }
 
